@@ -16,7 +16,14 @@ def one(s):
     pid = json.load(open('%s/seeded/%s/meta.json' % (V, s))).get('property', s.split('-')[0])
     pid = pid if isinstance(pid, str) and pid.startswith('C') else s.split('-')[0]
     wt = '%s/%s' % (base, s)
-    subprocess.run(['git', '-C', '/repo', 'worktree', 'add', '-q', '--detach', wt, 'HEAD'], check=True)
+    for _try in range(6):
+        # concurrent `git worktree add` calls on one repository can collide on its administrative files: retry
+        if subprocess.run(['git', '-C', '/repo', 'worktree', 'add', '-q', '--detach', wt, 'HEAD']).returncode == 0:
+            break
+        import time, random
+        time.sleep(0.5 + random.random())
+    else:
+        raise RuntimeError('git worktree add failed for %s' % wt)
     try:
         r = subprocess.run(['git', '-C', wt, 'apply', '%s/seeded/%s/patch.diff' % (V, s)], capture_output=True, text=True)
         if r.returncode != 0:
